@@ -57,7 +57,7 @@ class Outcome:
        pushed  - syntax nodes queued as nodes
        made    - whitespace atoms created (hardline/space/line/...), in order
        seq     - ordered list of ('atom', summary) / ('make', kind) for sequence rules"""
-    __slots__ = ('fn', 'parent', 'loops', 'items', 'atoms', 'pushed', 'made', 'seq', 'assumed', 'trace', 'status', 'events', 'result')
+    __slots__ = ('fn', 'parent', 'loops', 'items', 'atoms', 'pushed', 'made', 'seq', 'assumed', 'trace', 'status', 'events', 'result', 'stores', 'converts')
 
     def __init__(self, **kw):
         self.events = None
@@ -285,6 +285,8 @@ class SiteEvaluator:
                                 seq.append(('atom', summarise_atom(a, item)))
                 outcomes.append(Outcome(fn=b.short, parent=parent_kind, loops=[(x['fn'], x['bb']) for x in it], items=[x['item'] for x in it],
                                         atoms=event_atoms(evs), pushed=pushed_nodes(evs), made=made(evs), seq=seq,
+                                        stores=[(e[1], freeze(e[2])) for e in evs if e[0] == 'store'],
+                                        converts=[(e[1], freeze(e[2]), e[3], e[4]) for e in evs if e[0] == 'convert'],
                                         assumed=list(r.assumed[-12:]), trace=[], result=freeze(getattr(r, 'result', None)),
                                         status=r.outcome or ('return' if hasattr(r, 'result') else 'open')))
             else:
